@@ -36,6 +36,7 @@
 #include <vector>
 #include <iostream>
 #include <stdio.h>
+#include <string.h>
 
 using namespace MASA;
 
@@ -91,15 +92,15 @@ extern "C" int masa_select_mms(const char* function_user_wants)
 
 extern "C" int masa_get_name(char* name)
 {
-  std::string fuw(name);
-  masa_get_name<double>(&fuw);
-  return 0;
+  std::string fuw;
+  int err = masa_get_name<double>(&fuw);
+  strcpy(name,fuw.c_str()); // caller provides a buffer large enough for the solution name
+  return err;
 }
 
 extern "C" int masa_get_dimension(int* dim)
 {
-  masa_get_dimension<double>(dim);
-  return 0;
+  return masa_get_dimension<double>(dim);
 }
 
 extern "C" int masa_list_mms()
@@ -110,26 +111,22 @@ extern "C" int masa_list_mms()
 
 extern "C" int masa_purge_default_param()
 {
-  masa_purge_default_param<double>();
-  return 0;
+  return masa_purge_default_param<double>();
 }
 
 extern "C" int masa_init_param()
 {
-  masa_init_param<double>();
-  return 0;
+  return masa_init_param<double>();
 }
 
 extern "C" int masa_sanity_check()
 {
-  masa_sanity_check<double>();
-  return 0;
+  return masa_sanity_check<double>();
 }
 
 extern "C" int masa_display_param()
 {
-  masa_display_param<double>();
-  return 0;
+  return masa_display_param<double>();
 }
 
 extern "C" int masa_display_array()
@@ -148,7 +145,8 @@ extern "C" int masa_get_array(const char* param,int *n,double* array)
 {
   // grab vector
   std::vector<double> vec;
-  masa_get_vec<double>(param,vec);
+  int err = masa_get_vec<double>(param,vec);
+  if(err != 0) return err; // no such array: leave the caller's length and buffer alone
 
   // copy size to 'n'
   (*n) = int(vec.size());
